@@ -33,6 +33,8 @@ def drivers(part, ops):
 
 
 def canon(case, r):
+    if r == "UNCOMMITTED":
+        return None
     if r.startswith("CRASH(signal 11)") or r.startswith("CRASH(signal 7)"):
         return "FAULT"
     return r
